@@ -273,6 +273,14 @@ def oracle_c03(case):
         exp_inputs = [i for i in dump['inputs'] if i in od['inputs']]
         if od['inputs'] != exp_inputs:
             return f'inputs {od["inputs"]} are not a subsequence of {dump["inputs"]}'
+        leaves = list(flatten(ts))
+        if leaves and leaves[-1] == ['RR', True]:
+            # removal was requested by the LAST pass: exactly the inputs reachable from the outputs remain
+            live = set(reachable_from_outputs(od))
+            dead = [i for i in od['inputs'] if i not in live]
+            if dead:
+                return (f'input removal was requested by the last pass of {ts} but the unreachable inputs {dead} '
+                        f'are still there')
     elif od['inputs'] != dump['inputs']:
         return f'inputs changed: {od["inputs"]} vs {dump["inputs"]}'
     if len(od['outputs']) != len(dump['outputs']):
